@@ -107,7 +107,8 @@ func RunTLC(scratch string, o TLCOpts) (*TLCResult, error) {
 	if o.Timeout <= 0 {
 		o.Timeout = 10 * time.Minute
 	}
-	args := []string{"-XX:+UseParallelGC", fmt.Sprintf("-Xmx%dm", o.HeapMB), "-Xss64m"}
+	// (SANY and TLC unpack the standard modules into java.io.tmpdir: keep that inside the run directory)
+	args := []string{"-XX:+UseParallelGC", fmt.Sprintf("-Xmx%dm", o.HeapMB), "-Xss64m", "-Djava.io.tmpdir=" + dir}
 	if o.DFS {
 		args = append(args, "-Dtlc2.tool.queue.IStateQueue=StateDeque")
 	}
